@@ -81,6 +81,22 @@ Definition maybe_from_gregorian (year month day hour minute second nanos : Z) (t
     end
   end.
 
+(* Fast path used by the extracted executable: the two leap-day loops replaced by the leap-year count
+   in closed form.  Proofs/GregorianP.v (maybe_from_gregorian_fast_eq) proves it equal to
+   maybe_from_gregorian; outside the range covered by that proof it falls back to the loops. *)
+Definition leap_count (y : Z) : Z := (y - 1) / 4 - (y - 1) / 100 + (y - 1) / 400.
+Definition code_days (y m d : Z) : Z :=
+  365 * (y - HIFITIME_REF_YEAR) + (leap_count y - leap_count HIFITIME_REF_YEAR)
+  + cumulative_days (is_leap_year y) (m - 1) + (d - 1).
+Definition maybe_from_gregorian_fast (year month day hour minute second nanos : Z) (t : timescale) : epoch + greg_err :=
+  if negb (is_gregorian_valid year month day hour minute second nanos) then inr InvalidGregorianDate
+  else if Z.abs (year - HIFITIME_REF_YEAR) <=? 3000000 then
+    let total := ((code_days year month day * 24 + hour) * 60 + minute) * 60 * NANOSECONDS_PER_SECOND
+                 + second * NANOSECONDS_PER_SECOND + nanos - (if second =? 60 then NANOSECONDS_PER_SECOND else 0)
+                 - total_nanoseconds (gregorian_epoch_offset t) in
+    inl (mkE (from_total_nanoseconds total) t)
+  else maybe_from_gregorian year month day hour minute second nanos t.
+
 (* Epoch::compute_gregorian *)
 Definition compute_gregorian (d : duration) (t : timescale) : Z * Z * Z * Z * Z * Z * Z :=
   let wrt := dur_add d (gregorian_epoch_offset t) in
@@ -112,9 +128,16 @@ Definition duration_in_year (e : epoch) : option duration :=
   | inl s => Some (dur_sub (dur e) (dur s))
   | inr _ => None
   end.
+Definition duration_in_year_fast (e : epoch) : option duration :=
+  match maybe_from_gregorian_fast (greg_year e) 1 1 0 0 0 0 (scale e) with
+  | inl s => Some (dur_sub (dur e) (dur s))
+  | inr _ => None
+  end.
 (* formatter's integer day of year *)
 Definition day_of_year_integer (e : epoch) : option Z :=
   option_map (fun d => tdiv (total_nanoseconds d) NANOSECONDS_PER_DAY + 1) (duration_in_year e).
+Definition day_of_year_integer_fast (e : epoch) : option Z :=
+  option_map (fun d => tdiv (total_nanoseconds d) NANOSECONDS_PER_DAY + 1) (duration_in_year_fast e).
 
 (* ---- weekday (ops.rs) ---- *)
 (* Weekday as 0 = Monday .. 6 = Sunday; From<u8>: rem_euclid 7 *)
